@@ -1,6 +1,6 @@
 #!/bin/bash
 # Apply every seeded change in turn to a scratch worktree of /repo's HEAD, run the quick check of its
-# property there with a private copy of this directory, and collect the results in
+# property there (or, when its meta.json says so with gate_tier / gate_env, another tier) with a private copy of this directory, and collect the results in
 # /verif/evidence/sensitivity.json. LANES (default 4) worktrees work in parallel; everything scratch
 # lives under /tmp/seedlane and is removed at the end. /repo itself is not touched (it must be clean:
 # the worktrees are made from its HEAD).
@@ -19,7 +19,9 @@ for k in $(seq 1 $LANES); do
     export SEEDED_REPO=$S/r$k SEEDED_VERIF=$S/v$k SEEDED_NO_RESTORE=1
     while read d; do
       id=$(basename $d); prop=$(python3 -c "import json;print(json.load(open('/verif/$d/meta.json'))['property'])")
-      res=$(/verif/tools_seeded.sh run /verif/$d $prop quick 2>&1)
+      tier=$(python3 -c "import json;print(json.load(open('/verif/$d/meta.json')).get('gate_tier','quick'))")
+      genv=$(python3 -c "import json;print(json.load(open('/verif/$d/meta.json')).get('gate_env',''))")
+      res=$(env $genv /verif/tools_seeded.sh run /verif/$d $prop $tier 2>&1)
       rc=$(echo "$res" | grep -o "exit=[0-9]*" | tail -1 | cut -d= -f2)
       keys=$(echo "$res" | grep "^violation" | sed -E 's/.*key=([^ ]*) .*/\1/' | sort -u | head -5 | tr '\n' ' ')
       printf '{"id":"%s","property":"%s","check_exit":%s,"caught":%s,"violation_keys":"%s"}\n' "$id" "$prop" "${rc:-2}" "$([ "${rc:-2}" = 1 ] && echo true || echo false)" "$keys" >> $S/out$k.jsonl
